@@ -1569,7 +1569,15 @@ class Interp(Ops, Builtins, DynOps):
                 rng = z3.And(lo <= kz, kz < hi)
                 body = self.guarded(rng, lambda: self.truth(self.ev(e.args[3], qf)))
                 return VBool(z3.ForAll([kz], z3.Implies(rng, body)) if name == "forall" else z3.Exists([kz], z3.And(rng, body)))
-            raise EngineError("forall/exists: expected (var, lo, hi, body)")
+            if len(e.args) == 2:
+                # forall(p, body): p ranges over all integers (ids of an abstract universe, e.g. points)
+                var = e.args[0].id
+                kz = ctx.bound(var)
+                qf = Frame(fr.module, fr.fi, parent=fr)
+                qf.vars[var] = VInt(kz)
+                body = self.guarded(z3.BoolVal(True), lambda: self.truth(self.ev(e.args[1], qf)))
+                return VBool(z3.ForAll([kz], body) if name == "forall" else z3.Exists([kz], body))
+            raise EngineError("forall/exists: expected (var, lo, hi, body) or (var, body)")
         if name == "old":
             return self.eval_old(e.args[0], fr)
         if name == "lower":
